@@ -1,23 +1,28 @@
 #!/bin/bash
-# usage: rebase_corpus.sh <old-base-commit>
-# Re-bases every corpus patch (neutral/*.diff, seeded/*/patch.diff) that no longer applies to /repo's HEAD: the patch is
-# applied to <old-base-commit> (where it was last known to apply) in a scratch worktree, committed, and cherry-picked
-# onto HEAD; the resulting diff replaces the patch file. Conflicts are reported and left for a manual rebase.
+# usage: rebase_corpus.sh            (no arguments)
+# Re-bases every corpus patch (neutral/*.diff, seeded/*/patch.diff) that no longer applies to /repo's HEAD: the newest
+# commit of /repo's history at which the patch still applies is looked up, the patch is committed there in a scratch
+# worktree and cherry-picked (3-way) onto HEAD; the resulting diff replaces the patch file. Conflicts are reported and
+# the conflicted tree is saved under /tmp/rebase-conflicts/<name>/ for a manual rebase.
 set -u
-OLD="$1"; NEW=$(git -C /repo rev-parse HEAD)
-WT=/tmp/rebase-wt; rm -rf $WT; git -C /repo worktree prune; git -C /repo worktree add -q --detach $WT $NEW || exit 2
+NEW=$(git -C /repo rev-parse HEAD)
+WT=/tmp/rebase-wt; rm -rf $WT /tmp/rebase-conflicts; git -C /repo worktree prune; git -C /repo worktree add -q --detach $WT $NEW || exit 2
 trap 'git -C /repo worktree remove --force $WT 2>/dev/null; rm -rf $WT' EXIT
 cd $WT; git config user.email v@v; git config user.name v
+HIST=$(git rev-list $NEW)
 for P in /verif/neutral/*.diff /verif/seeded/*/patch.diff; do
   git checkout -q --detach $NEW; git reset -q --hard $NEW
   if git apply --check "$P" 2>/dev/null; then continue; fi
-  git checkout -q --detach $OLD; git reset -q --hard $OLD
-  if ! git apply "$P" 2>/dev/null; then echo "NOT-AT-OLD $P"; continue; fi
-  git add -A; git commit -q -m tmp; C=$(git rev-parse HEAD)
+  OLD=""
+  for c in $HIST; do git checkout -q --detach $c; if git apply --check "$P" 2>/dev/null; then OLD=$c; break; fi; done
+  if [ -z "$OLD" ]; then echo "NO-BASE $P"; continue; fi
+  git apply "$P"; git add -A; git commit -q -m tmp; C=$(git rev-parse HEAD)
   git checkout -q --detach $NEW
   if git cherry-pick -n $C >/dev/null 2>&1; then
-    git diff --cached $NEW > "$P.new"; [ -s "$P.new" ] && mv "$P.new" "$P" && echo "rebased $P"
+    git diff --cached $NEW > "$P.new"; [ -s "$P.new" ] && mv "$P.new" "$P" && echo "rebased $P (from $(git rev-parse --short $OLD))"
   else
-    echo "CONFLICT $P: $(git diff --name-only --diff-filter=U | tr '\n' ' ')"; git cherry-pick --abort 2>/dev/null; git reset -q --hard $NEW; rm -f "$P.new"
+    n=$(echo "$P" | sed 's|/verif/||; s|/patch.diff||; s|\.diff||; s|/|_|g')
+    mkdir -p /tmp/rebase-conflicts/$n; for f in $(git diff --name-only --diff-filter=U); do mkdir -p /tmp/rebase-conflicts/$n/$(dirname $f); cp $f /tmp/rebase-conflicts/$n/$f; done
+    echo "CONFLICT $P (base $(git rev-parse --short $OLD)): $(git diff --name-only --diff-filter=U | tr '\n' ' ')"; git cherry-pick --abort 2>/dev/null; git reset -q --hard $NEW; rm -f "$P.new"
   fi
 done
